@@ -23,6 +23,17 @@ Clauses (ensures)
         "treats every new SETUP as the start of a fresh control transfer, even if the previous one was abandoned"
    foreign_tokens_change_nothing, stage_changes_only_on_own_events
         "tokens for other endpoints never advance or disturb the control transfer"
+
+Caller side (wiring obligations, functions in c10_unsupported_requests_stall.py).  The proof above has ONE request handler;
+devices attach several (USBSerialDevice: standard + ACM + stall).  That every handler still sees the same transfer and only the
+claiming one answers is the multiplexer's and the endpoint's hookup:
+   USBRequestHandlerMultiplexer/wiring_3_handlers   every handler-input field fans out to every interface (and the fallback);
+        exactly one claim -> EVERY shared output (tx stream, tx_data_pid, handshakes, commit strobes) is that handler's for all
+        values of the other interfaces' lines; no claim -> the fallback's (which only STALLs, DATA1); tx.ready back to the
+        selected interface only
+   USBControlEndpoint/wiring_request_interface_acm  the real endpoint with StandardRequestHandler + ACMRequestHandlers +
+        StallOnlyRequestHandler: setup packet / tokenizer / handshakes_in / active_config / gated rx reach the handlers, tx
+        stream / data PID / handshake lines (ACK = decoder | handlers | PING probe) leave the endpoint, end to end per handler
 """
 import z3
 from hwv.contract import B, bvc, bits, bv1, zx
@@ -140,5 +151,10 @@ def make(ep):
 
 def contracts(tier):
     yield ("USBControlEndpoint", "ep0_standard", make(0))
+    # caller side: with SEVERAL handlers (the proof above has one) the multiplexer and the endpoint's hookup keep every
+    # handler on the same transfer and let only the claiming one answer
+    from .c10_unsupported_requests_stall import make_control_endpoint_wiring, make_mux_wiring
+    yield ("USBRequestHandlerMultiplexer", "wiring_3_handlers", make_mux_wiring(3, own_fallback=False))
+    yield ("USBControlEndpoint", "wiring_request_interface_acm", make_control_endpoint_wiring("acm", {"request_interface", "handlers"}, ep=0))
     if tier == "thorough":
         yield ("USBControlEndpoint", "ep2_standard", make(2))
